@@ -18,6 +18,9 @@
 #include <chrono>
 #include <cstdlib>
 #include <filesystem>
+#ifdef BLOCH_VERIF
+#include <functional>
+#endif
 #include <fstream>
 #include <iomanip>
 #include <iostream>
@@ -36,6 +39,16 @@
 #include "third_party/cpp-httplib/httplib.h"
 
 namespace bloch::update {
+#ifdef BLOCH_VERIF
+    // Verification hooks: clock and network as inputs, and a stop right after the decision gate of
+    // --update (before anything is downloaded). Only reachable from a harness that includes this file.
+    namespace verif {
+        std::function<long long()> nowSeconds;
+        std::function<std::optional<std::string>(std::string&)> fetchLatest;
+        bool stopBeforeDownload = false;
+        std::string lastDecision;
+    }  // namespace verif
+#endif
     namespace {
 
         // REFACTOR: Wrap filesystem/HTTP/time dependencies behind interfaces
@@ -264,6 +277,10 @@ namespace bloch::update {
 
         std::optional<std::string> fetchLatestReleaseTag(const std::string& agent,
                                                          std::string& error) {
+#ifdef BLOCH_VERIF
+            if (verif::fetchLatest)
+                return verif::fetchLatest(error);
+#endif
             httplib::SSLClient client("api.github.com");
             configureClient(client);
             httplib::Headers headers{
@@ -615,7 +632,13 @@ namespace bloch::update {
         if (shouldSkipChecks())
             return;
 
+#ifdef BLOCH_VERIF
+        const auto now = verif::nowSeconds
+                             ? Clock::time_point(std::chrono::seconds(verif::nowSeconds()))
+                             : Clock::now();
+#else
         const auto now = Clock::now();
+#endif
         auto cached = loadCache();
         UpdateCache cache = cached.value_or(emptyCache());
 
@@ -672,6 +695,12 @@ namespace bloch::update {
             }
         }
 
+#ifdef BLOCH_VERIF
+        if (verif::stopBeforeDownload) {
+            verif::lastDecision = "install";
+            return false;
+        }
+#endif
 #ifdef _WIN32
         std::ostringstream cmd;
         cmd << "powershell -NoProfile -ExecutionPolicy Bypass -Command \""
